@@ -169,14 +169,59 @@ class PrefixFilterPair(object):
     which = 'prefix'
 
     def inputs(self, case, rng, model, tier):
+        if case in ('EDIT_DISTANCE', 'OVERLAP'):
+            # BOUNDED modes (not under contract): every pair of strings over a two-letter alphabet up to a length
+            # bound (q-gram bags repeat tokens there), then seeded random strings over three letters
+            import itertools
+            n = 6 if tier != 'thorough' else 8
+            alpha = 'ab' if case == 'EDIT_DISTANCE' else 'a b c d'.split()
+            sep = '' if case == 'EDIT_DISTANCE' else ' '
+            strs = [sep.join(w) for k in range(0, n + 1) for w in itertools.product(alpha, repeat=k)] \
+                if case == 'EDIT_DISTANCE' else \
+                [sep.join(w) for k in range(0, 5) for w in itertools.combinations(alpha + ['e', 'f'], k)]
+            for t in (1, 2, 3):
+                for l in strs:
+                    for r in strs:
+                        yield dict(l=l, r=r, t=t, q=2, allow_missing=False, allow_empty=True)
+            for _ in range(20000 if tier != 'thorough' else 400000):
+                l = ''.join(rng.choice('abc') for _ in range(rng.randint(0, 10)))
+                r = ''.join(rng.choice('abc') for _ in range(rng.randint(0, 10)))
+                if case == 'OVERLAP':
+                    l, r = ' '.join(l), ' '.join(r)
+                yield dict(l=l, r=r, t=rng.randint(1, 4), q=rng.choice((2, 3)), allow_missing=False, allow_empty=True)
+            return
         for _ in range(3000 if tier != 'thorough' else 30000):
             l, r = gen_strings(rng, 2)
             yield dict(l=l, r=r, t=rng.choice(THR), allow_missing=rng.random() < 0.5, allow_empty=rng.random() < 0.5)
+
+    def check_int_mode(self, case, a):
+        """EDIT_DISTANCE / OVERLAP modes of filter_pair: a pair within the edit distance / with the required number
+        of common tokens is never dropped (C04); bounded stand-in, these modes have no contract"""
+        from py_stringmatching import WhitespaceTokenizer, QgramTokenizer, Levenshtein
+        from py_stringsimjoin.filter.prefix_filter import PrefixFilter
+        from py_stringsimjoin.filter.position_filter import PositionFilter
+        cls = PrefixFilter if self.which == 'prefix' else PositionFilter
+        if case == 'EDIT_DISTANCE':
+            tok = QgramTokenizer(qval=a['q'])
+            f = cls(tok, 'EDIT_DISTANCE', a['t'], a['allow_empty'], a['allow_missing'])
+            # C04: within the distance AND sharing a q-gram (the documented gap of the q-gram technique)
+            ok = Levenshtein().get_raw_score(a['l'], a['r']) <= a['t'] and \
+                bool(set(tok.tokenize(a['l'])) & set(tok.tokenize(a['r'])))
+        else:
+            f = cls(WhitespaceTokenizer(return_set=True), 'OVERLAP', a['t'], a['allow_empty'], a['allow_missing'])
+            ok = len(set(a['l'].split()) & set(a['r'].split())) >= a['t']
+        got = f.filter_pair(a['l'], a['r'])
+        if got and ok:
+            return 'filter_pair(%r, %r) [%s %r, qval=%r] drops a pair that meets the threshold' % (
+                a['l'], a['r'], case, a['t'], a['q'])
+        return None
 
     def check(self, case, a):
         from py_stringmatching import WhitespaceTokenizer
         from py_stringsimjoin.filter.prefix_filter import PrefixFilter
         from py_stringsimjoin.filter.position_filter import PositionFilter
+        if case in ('EDIT_DISTANCE', 'OVERLAP'):
+            return self.check_int_mode(case, a)
         M = measure_of(case)
         cls = PrefixFilter if self.which == 'prefix' else PositionFilter
         f = cls(WhitespaceTokenizer(return_set=True), M, a['t'], a['allow_empty'], a['allow_missing'])
@@ -371,7 +416,10 @@ def gen_candset_inputs(rng, tier, n):
                    M=rng.choice(['JACCARD', 'COSINE', 'DICE']), op=rng.choice(['>=', '>', '=']),
                    score=rng.random() < 0.5, outs=rng.random() < 0.5, cache=rng.random() < 0.5,
                    comp=rng.choice(['>=', '>', '<=', '<', '=', '!=']), tokenized=rng.random() < 0.6,
-                   selfjoin=rng.random() < 0.25, dupidx=rng.random() < 0.3)
+                   selfjoin=rng.random() < 0.25, dupidx=rng.random() < 0.3,
+                   # numeric keys: int64 ids beyond 2**53 in a candidate set whose columns are all numeric
+                   # (ids + float score): anything that moves rows through a float array confuses them
+                   numkeys=rng.random() < 0.25)
 
 
 def _candset(a):
@@ -405,6 +453,15 @@ class FilterCandset(object):
     def check(self, case, a):
         lt, rt = _frames(a)
         cs = _candset(a)
+        if a.get('numkeys'):
+            import pandas as pd
+            B = 2 ** 53
+            lt['id'] = pd.Series([B + 1 + i for i in range(len(lt))], index=lt.index, dtype='int64')
+            rt['rid'] = pd.Series([B + 1 + 2 * j for j in range(len(rt))], index=rt.index, dtype='int64')
+            cs = pd.DataFrame({'l_id': pd.Series([B + 1 + i for i, _ in a['pairs']], index=cs.index, dtype='int64'),
+                               'r_rid': pd.Series([B + 1 + 2 * j for _, j in a['pairs']], index=cs.index, dtype='int64'),
+                               '_sim_score': pd.Series([0.5 + k / 64.0 for k in range(len(cs))], index=cs.index, dtype=float)},
+                              columns=['l_id', 'r_rid', '_sim_score'], index=cs.index)
         lt0, rt0, cs0 = lt.copy(deep=True), rt.copy(deep=True), cs.copy(deep=True)
         f = _make_filter(a)
         out = f.filter_candset(cs, 'l_id', 'r_rid', lt, rt, 'id', 'rid', 'v', 'w', a['n_jobs'], False)
